@@ -147,6 +147,16 @@ def contains(engine, st, fr, op, a, b, node):
 
 def binop(engine, st, fr, op, a, b, node):
     opn = type(op).__name__
+    for idx, v in enumerate((a, b)):
+        if isinstance(v, Z) and isinstance(v.ty, tuple) and v.ty[0] == "opt" and v.ty[1] in ("int", "num") and opn in ("Add", "Sub", "Mult", "Div", "Pow"):
+            for st1, isnone in engine.branch(st, Val.is_none(v.t), "%s is None in arithmetic" % engine.label(node.left if idx == 0 else node.right)):
+                if isnone:
+                    yield st1, _Raise(engine.new_exc(st1, "TypeError", "unsupported operand type(s): NoneType"))
+                else:
+                    v2 = engine.typed(st1, v.t, v.ty[1])
+                    for r in binop(engine, st1, fr, op, v2 if idx == 0 else a, b if idx == 0 else v2, node):
+                        yield r
+            return
     if _both_num(engine, a, b) and opn in ("Add", "Sub", "Mult", "Pow", "Div"):
         x, y = engine.num(st, a), engine.num(st, b)
         if opn == "Pow":
